@@ -1,4 +1,85 @@
-(* placeholder while the tie is being validated; theorems follow *)
-From RP Require Import Lib.Base.
-Example placeholder_C03 : True.
-Proof. exact I. Qed.
+(* C03 - Panel messages keep their meaning when written as ASCII lines.
+   Only statements here; each closed by [exact] of a lemma from Proofs/.
+
+   Model: Model/EncOut.v (OutboundMessagesToRawPanelASCIIstrings incl. the final singleLines pass).
+   Spec:  Spec/GrammarOut.v (independent reader, representable domain), Spec/DenoteOut.v (den_out,
+          reports_equiv).  wf_line l = "l is a line of the reference grammar".
+   Domain (representable_outb): flow words 0-5,100; ids/values in their 32-bit ranges; edges
+   0..2^31-1 (the quantifier's 0,1,2,4,8,16 included); panel types 0-5, health 0-2; all 2^13
+   capability sets; text without LF; address-list elements non-empty, without ';' and
+   surrounding white space; payloads (topology, profiles, messages) that the flattening of
+   C07 leaves unchanged (one trimmed line - see c03_payload_fixed_point); finite floats
+   (no bound on their magnitude); register ids [A-Z0-9]*, flag ids canonical decimals with value 0/1.
+   The NetworkConfig JSON text is produced by encoding/json (oracle, carried as text). *)
+From RP Require Import Lib.Base Lib.Sexp Lib.Strings Lib.TrimSpace Lib.FloatFmt Model.MsgOut Model.Flatten Model.EncOut
+  Spec.DenoteOut Spec.GrammarOut Proofs.OutEncLines Proofs.OutEncSys Proofs.OutEncSound Proofs.OutCorollary.
+From Coq Require Import Permutation.
+Open Scope Z_scope.
+
+(* The property: for every list of representable messages and every iteration order of each
+   availability map, the encoder returns lines; every line is a line of the grammar; and the
+   reports read from the lines, in order, are the reports of the messages in message order -
+   the map entries of ONE message may come in any order inside that message's block. *)
+Theorem c03_enc_out_sound : forall (flat flat_svg : bytes -> bytes) ms msgs ords,
+  all_some_msgs ms = Some msgs ->
+  Forall (fun m => representable_outb flat flat_svg m = true) msgs ->
+  orders_ok ords msgs ->
+  exists ls, enc_out flat flat_svg ords ms = Ok ls /\
+    Forall wf_line ls /\ reports_equiv (flat_map sem_out_line ls) (map den_out msgs).
+Proof. exact enc_out_sound. Qed.
+Print Assumptions c03_enc_out_sound.
+
+(* the same for the encoder with the library's own flattening helpers (Model/Flatten.v) *)
+Theorem c03_enc_out_go_sound : forall ms msgs ords,
+  all_some_msgs ms = Some msgs ->
+  Forall (fun m => representable_outb strip_lb strip_lb_svg m = true) msgs ->
+  orders_ok ords msgs ->
+  exists ls, enc_out_go ords ms = Ok ls /\
+    Forall wf_line ls /\ reports_equiv (flat_map sem_out_line ls) (map den_out msgs).
+Proof. exact (enc_out_sound strip_lb strip_lb_svg). Qed.
+Print Assumptions c03_enc_out_go_sound.
+
+(* one message: its lines are its pre-map items, its map entries in iteration order, the rest *)
+Theorem c03_enc_msg_sound : forall (flat flat_svg : bytes -> bytes) ord m,
+  representable_outb flat flat_svg m = true -> Permutation ord (om_map m) ->
+  exists ls, enc_msg flat flat_svg ord m = Ok ls /\
+    Forall wf_line ls /\ block_equiv (flat_map sem_out_line ls) (den_out m).
+Proof. exact enc_msg_sound. Qed.
+Print Assumptions c03_enc_msg_sound.
+
+(* events: every kind, the edge suffix rule (".e" iff edge > 0), signed / unsigned 32-bit values *)
+Theorem c03_event_lines : forall e, rep_event (Some e) = true ->
+  Forall wf_line (enc_event e) /\ flat_map sem_out_line (enc_event e) = den_event e.
+Proof. exact good_event. Qed.
+Print Assumptions c03_event_lines.
+
+(* all subsets of the 13 capability flags (finite sweep over the 8192 lists, lifted) *)
+Theorem c03_capability_list : forall c : list bool, length c = 13%nat ->
+  exists st, read_out_line (enc_support c) = WF st [RCaps c].
+Proof. exact sem_support. Qed.
+Print Assumptions c03_capability_list.
+
+(* the printed digits of a finite float32, any magnitude: %.1f / %.2f read back as the value
+   rounded half-even to that precision *)
+Theorem c03_float_digits : forall k b, k = 1 \/ k = 2 -> f32_finite b = true ->
+  read_dec (Z.to_nat k) (fmt_f32 k b) = Some (fmt_strict k b, f32_scaled k b).
+Proof. exact read_dec_fmt. Qed.
+Print Assumptions c03_float_digits.
+
+(* all 20 system-statistics fields *)
+Theorem c03_sysstat_line : forall s, rep_sys s = true ->
+  exists st, read_out_line (enc_sys s) = WF st [den_sys s].
+Proof. exact sem_sys_line. Qed.
+Print Assumptions c03_sysstat_line.
+
+(* what "the flattening leaves the payload unchanged" means for stripLineBreaks *)
+Theorem c03_payload_fixed_point : forall s,
+  text_ok s = true -> trim_space s = s -> payload_ok strip_lb s = true.
+Proof. exact payload_fixed_point. Qed.
+Print Assumptions c03_payload_fixed_point.
+
+(* Non-vacuity: a message using every section (flow, identity, 6 of 13 capabilities, topology,
+   timers, connections, statistics with negative zero and extreme integers, a 3-entry map, all
+   five event kinds at the 32-bit boundaries, three registers) is in the domain. *)
+Example c03_nonvacuous : representable_outb strip_lb strip_lb_svg demo_msg = true.
+Proof. exact demo_msg_representable. Qed.
